@@ -116,7 +116,7 @@ func (pk PublicKey) Equal(other *PublicKey) bool {
 // ct ∈ [1, …, N²-1] AND GCD(ct,N²) = 1.
 func (pk PublicKey) ValidateCiphertexts(cts ...*Ciphertext) bool {
 	for _, ct := range cts {
-		if ct == nil {
+		if ct == nil || ct.c == nil {
 			return false
 		}
 		_, _, lt := ct.c.CmpMod(pk.nSquared.Modulus)
